@@ -513,9 +513,11 @@ func offStr(abs int64) string {
 // ---- generators --------------------------------------------------------------
 
 var (
+	kindsResize = []string{"req", "req", "req", "req", "req", "req", "req", "req", "req", "req", "req", "resize"}
+	kindsBurst  = []string{"req", "burst", "req"}
 	pctPool     = []float64{100, 50, 25, 20, 33.3, 12.5, 66.67, 10, 0.1, 0, 150, 75}
-	valuePool   = []string{"a", "b", "c", "zz", ""}
-	defaultPool = []string{"allow", "block", "use_default_allocation", "use_default_allocation", "", "undefined"}
+	valuePool   = []string{"a", "b", "c", "a", "b", "zz", ""}
+	defaultPool = []string{"use_default_allocation", "allow", "use_default_allocation", "block", "use_default_allocation", "", "undefined"}
 	statusPool  = []int{0, 429, 503, 418}
 	allowedPool = []int64{1, 1, 2, 2, 3, 4, 5, 10}
 )
@@ -552,58 +554,96 @@ type genOpts struct {
 	minRem     int
 }
 
+// intent is the abstract form of one step; instants are resolved afterwards
+// against the window size the remedy has at that point, so that rapid can
+// delete and simplify steps independently while shrinking.
+type intent struct {
+	Kind   string
+	Remedy int
+	Tag    string
+	DK     int
+	Dt     int64 // fraction (in 1/1000) of two windows, for tag rnd
+	Group  int
+	Others []int // burst: group index per extra concurrent caller (-1 = same as Group)
+	NewW   int
+}
+
+func genIntent(o genOpts) *rapid.Generator[intent] {
+	tags := []string{"same", "same", "same", "rnd", "+1ns", "mid", "-1ns"}
+	if o.onGrid {
+		tags = append(tags, "grid", "grid", "grid")
+	}
+	kinds := []string{"req"}
+	if o.resize {
+		kinds = kindsResize
+	} else if o.burst {
+		kinds = kindsBurst
+	}
+	return rapid.Custom(func(t *rapid.T) intent {
+		in := intent{
+			Kind:   rapid.SampledFrom(kinds).Draw(t, "kind"),
+			Remedy: rapid.IntRange(0, 2).Draw(t, "remedy"),
+		}
+		if in.Kind == "resize" {
+			in.NewW = rapid.IntRange(1, 5).Draw(t, "neww")
+			return in
+		}
+		in.Tag = rapid.SampledFrom(tags).Draw(t, "tag")
+		switch in.Tag {
+		case "rnd":
+			in.Dt = rapid.Int64Range(0, 1000).Draw(t, "dt")
+		case "grid":
+			in.DK = rapid.SampledFrom([]int{1, 1, 1, 2, 3}).Draw(t, "dk")
+		case "+1ns":
+			in.DK = rapid.SampledFrom([]int{0, 1, 1, 2}).Draw(t, "dk")
+		case "mid":
+			in.DK = rapid.SampledFrom([]int{0, 0, 1, 2}).Draw(t, "dk")
+		case "-1ns":
+			in.DK = rapid.SampledFrom([]int{0, 0, 1}).Draw(t, "dk")
+		}
+		in.Group = rapid.IntRange(0, 2).Draw(t, "group")
+		if in.Kind == "burst" {
+			in.Others = rapid.SliceOfN(rapid.SampledFrom([]int{-1, -1, -1, -1, -1, -1, -1, 0, 1, 2}), 1, 7).Draw(t, "others")
+		}
+		return in
+	})
+}
+
 func genCase(t *rapid.T, o genOpts) caseSpec {
 	nr := rapid.IntRange(o.minRem, 3).Draw(t, "nremedies")
 	c := caseSpec{}
 	for i := 0; i < nr; i++ {
 		c.Remedies = append(c.Remedies, genRemedy(t, i, o.forceAlloc && i == 0))
 	}
+	// few groups per case so that counters fill up
+	gv := rapid.SliceOfNDistinct(rapid.SampledFrom(valuePool), 1, 3, rapid.ID[string]).Draw(t, "values")
+	ins := rapid.SliceOfN(genIntent(o), 1, o.maxSteps).Draw(t, "steps")
 	curW := make([]int64, nr)
 	for i, r := range c.Remedies {
 		curW[i] = int64(r.W) * sec
 	}
-	tags := []string{"same", "same", "same", "rnd", "+1ns", "mid", "-1ns"}
-	if o.onGrid {
-		tags = append(tags, "grid", "grid", "grid")
-	}
 	now := int64(0) // offset from base
-	ns := rapid.IntRange(1, o.maxSteps).Draw(t, "nsteps")
-	// few groups per case so that counters fill up
-	gv := rapid.SliceOfNDistinct(rapid.SampledFrom(valuePool), 1, 3, rapid.ID[string]).Draw(t, "values")
-	for i := 0; i < ns; i++ {
-		ri := 0
-		if nr > 1 {
-			ri = rapid.IntRange(0, nr-1).Draw(t, "remedy")
-		}
-		kind := "req"
-		roll := rapid.IntRange(0, 99).Draw(t, "kind")
-		if o.resize && roll < 5 {
-			kind = "resize"
-		} else if o.burst && roll >= 60 {
-			kind = "burst"
-		}
-		if kind == "resize" {
-			nw := rapid.IntRange(1, 5).Draw(t, "neww")
-			c.Steps = append(c.Steps, step{Kind: "resize", Remedy: ri, NewW: nw, At: now})
-			curW[ri] = int64(nw) * sec
+	for _, in := range ins {
+		ri := in.Remedy % nr
+		if in.Kind == "resize" {
+			c.Steps = append(c.Steps, step{Kind: "resize", Remedy: ri, NewW: in.NewW, At: now})
+			curW[ri] = int64(in.NewW) * sec
 			continue
 		}
 		W := curW[ri]
-		tag := rapid.SampledFrom(tags).Draw(t, "tag")
 		win := now / W
-		at := now
+		at, tag := now, in.Tag
 		switch tag {
-		case "same":
 		case "rnd":
-			at = now + rapid.Int64Range(0, 2*W).Draw(t, "dt")
+			at = now + 2*W/1000*in.Dt
 		case "grid":
-			at = (win + int64(rapid.SampledFrom([]int{1, 1, 1, 2, 3}).Draw(t, "dk"))) * W
+			at = (win + int64(in.DK)) * W
 		case "+1ns":
-			at = (win+int64(rapid.SampledFrom([]int{0, 1, 1, 2}).Draw(t, "dk")))*W + 1
+			at = (win+int64(in.DK))*W + 1
 		case "mid":
-			at = (win+int64(rapid.SampledFrom([]int{0, 0, 1, 2}).Draw(t, "dk")))*W + W/2
+			at = (win+int64(in.DK))*W + W/2
 		case "-1ns":
-			at = (win+int64(rapid.SampledFrom([]int{0, 0, 1}).Draw(t, "dk")))*W + W - 1
+			at = (win+int64(in.DK))*W + W - 1
 		}
 		if at < now {
 			at, tag = now, "same"
@@ -612,18 +652,18 @@ func genCase(t *rapid.T, o genOpts) caseSpec {
 			at++ // every grid instant is a whole second: stay off the grid
 		}
 		now = at
-		s := step{Kind: kind, Remedy: ri, At: at, Tag: tag}
-		if kind == "req" {
-			s.Group = rapid.SampledFrom(gv).Draw(t, "group")
+		s := step{Kind: in.Kind, Remedy: ri, At: at, Tag: tag}
+		g := gv[in.Group%len(gv)]
+		if in.Kind == "req" {
+			s.Group = g
 		} else {
-			n := rapid.IntRange(2, 8).Draw(t, "n")
-			g0 := rapid.SampledFrom(gv).Draw(t, "group")
-			for j := 0; j < n; j++ {
-				g := g0
-				if rapid.IntRange(0, 9).Draw(t, "othergroup") == 0 {
-					g = rapid.SampledFrom(gv).Draw(t, "g")
+			s.Groups = []string{g}
+			for _, x := range in.Others {
+				if x < 0 {
+					s.Groups = append(s.Groups, g)
+				} else {
+					s.Groups = append(s.Groups, gv[x%len(gv)])
 				}
-				s.Groups = append(s.Groups, g)
 			}
 		}
 		c.Steps = append(c.Steps, s)
